@@ -113,9 +113,12 @@ def h3(ck: Check) -> None:
         pc = en.pc(en.cfgn(c))
         if not logic.equivalent(pc, logic.Not(logic.B(f"none:{eps[0]}"))):
             probs.append(f"the edge is created under `{logic.show(pc)}`, expected: whenever a parent is given")
-        rets = [r for r in own_walk(en.f.node) if isinstance(r, ast.Return)]
-        if any(en.cfgn(r).lineno < c.lineno for r in rets if r.value is not None):
-            probs.append("a return precedes the edge creation (existing child would not get the edge)")
+        from .common import paths_imply
+        for r in own_walk(en.f.node):
+            if isinstance(r, ast.Return) and r.value is not None:
+                why = paths_imply(en, en.cfg.entry, en.cfgn(r), logic.B(f"none:{eps[0]}"), None, stop={en.cfgn(c).id}, canon=True)
+                if why is not None:
+                    probs.append(f"a child is returned without the edge from the given parent ({why})")
     ck.ob("H3", en, calls[0] if calls else en.f.node, not probs, "; ".join(probs) if probs else
           "child lookup/creation is always followed by the edge with the given motif", key="edge after node")
     # readers
